@@ -1,4 +1,5 @@
 import builtins
+import contextlib
 import copy
 import copyreg
 import functools
@@ -318,8 +319,9 @@ def mutate_value(
         if remaining_attrs and not mutate_safe:
             value = protect_via_deepcopy(value)
             mutate_safe = True
-        for attr, attr_value in remaining_attrs.items():
-            _setattr_mutate_safe(value, attr, attr_value, inplace=inplace)
+        with _rollback_on_error(value, inplace and len(remaining_attrs) > 1):
+            for attr, attr_value in remaining_attrs.items():
+                _setattr_mutate_safe(value, attr, attr_value, inplace=inplace)
     elif attrs:
         raise ValueError("Cannot use attrs on a missing value without a constructor.")
 
@@ -331,12 +333,33 @@ def mutate_value(
     if attr_transforms:
         if not mutate_safe:
             value = protect_via_deepcopy(value)
-        for attr, attr_transform in attr_transforms.items():
-            transformed_value = attr_transform(getattr(value, attr, MISSING))
-            if transformed_value is not MISSING:
-                _setattr_mutate_safe(value, attr, transformed_value, inplace=inplace)
+        with _rollback_on_error(value, inplace and len(attr_transforms) > 1):
+            for attr, attr_transform in attr_transforms.items():
+                transformed_value = attr_transform(getattr(value, attr, MISSING))
+                if transformed_value is not MISSING:
+                    _setattr_mutate_safe(
+                        value, attr, transformed_value, inplace=inplace
+                    )
 
     return value
+
+
+@contextlib.contextmanager
+def _rollback_on_error(obj: Any, enabled: bool):
+    """
+    When several attributes of `obj` are mutated in place and one of the
+    mutations fails, restore the attributes of `obj` that had already been
+    mutated (and any that they invalidated), so that the operation as a whole
+    either happens or does not.
+    """
+    state = dict(obj.__dict__) if enabled and hasattr(obj, "__dict__") else None
+    try:
+        yield
+    except BaseException:
+        if state is not None:
+            obj.__dict__.clear()
+            obj.__dict__.update(state)
+        raise
 
 
 def _setattr_mutate_safe(value: Any, attr: str, attr_value: Any, inplace: bool):
